@@ -368,6 +368,11 @@ def curCell (s : RSt) (i : Nat) : Except Err Nat :=
 
 /-! ## one instruction -/
 
+/-- the function a `MakeClosure` names: directly, or as the word in a register -/
+def fnOfOpd (s : RSt) : Opd → Except Err Nat
+  | .fn i => .ok i
+  | o => do .ok (← readWord s o).toNat
+
 /-- what an instruction does to the registers of its frame: nothing, fresh words named by `dst`, or an alias -/
 inductive Eff where
   | none
@@ -421,9 +426,7 @@ def stepCore (callF : CallF) (P : Prog) (i : Ins) (s : RSt) : Except Err CoreRes
     | .ok gl => .ok (res { s1 with g := { s1.g with globals := gl } } .none)
     | .error _ => .error (.stuck "global write out of bounds")
   | .mkClosure dst fo => do
-    let g ← match fo with
-      | .fn i => pure i
-      | o => do pure (← readWord s o).toNat
+    let g ← fnOfOpd s fo
     let (s1, h) ← newClosure P s g
     .ok (res s1 (.val dst [h]))
   | .closeHeap src => do
@@ -540,7 +543,7 @@ def moveM (d src : Nat) (s : MSt) : MSt :=
   | some (some rg) =>
     match readN s.g.mem rg.addr rg.size with
     | .ok ws => s.withRest (bind s.rest d ws)
-    | .error _ => { s with fr := { s.fr with regs := s.fr.regs.setIfInBounds d none } }
+    | .error _ => { s with fr := { s.fr with regs := s.fr.regs.setIfInBounds d (some rg) } }
   | _ => { s with fr := { s.fr with regs := s.fr.regs.setIfInBounds d none } }
 
 def truthyM (c : Nat) (s : MSt) : Bool :=
